@@ -133,7 +133,7 @@ impl MovePicker {
 }
 
 //@@ body: engine/search/mod.rs :: fn search => search__body
-//@@ body: engine/search/mod.rs :: fn panic_move => panic_move
+//@@ body?: engine/search/mod.rs :: fn panic_move => panic_move
 
 fn any_move_opt() -> Option<Move> {
     if kani::any() {
